@@ -1,13 +1,175 @@
 /-
 C08 — mask_dict_password masks recursively and never modifies its argument.
+
+Property theorems over OsloModel/MaskDict.lean.  A Python mapping has pairwise
+distinct keys; in the model that is the representation invariant `WFVal`
+(hereditarily duplicate-free key lists).  Non-mutation holds of the model by
+construction (a pure function of its argument) and is an obligation of the
+correspondence/search on the code.
 -/
 import OsloModel.MaskDict
 namespace Oslo.MaskDict
 open Oslo.Mask
 
-/-- a non-mapping argument raises TypeError -/
+/-! ### the specification -/
+
+/-- the key is a `str` whose lower-casing contains a sanitize key -/
+def KeyHit (k : PyKey) : Prop := ∃ ks, k = .str ks ∧ keyMatches Gen.sanitizeKeys ks = true
+
+mutual
+/-- `MaskedVal mask k v r`: `r` is what the result stores under key `k` for the argument's value `v` -/
+inductive MaskedVal (mask : List Char) : PyKey → PyVal → PyVal → Prop
+  /-- a mapping value is processed recursively, whatever its key -/
+  | map (k : PyKey) (items items' : List (PyKey × PyVal)) :
+      MaskedItems mask items items' → MaskedVal mask k (.map items) (.map items')
+  /-- a non-mapping value under a string key containing a sanitize key becomes the mask -/
+  | hitStr (k : PyKey) (s : List Char) : KeyHit k → MaskedVal mask k (.str s) (.str mask)
+  | hitOther (k : PyKey) (i : Nat) : KeyHit k → MaskedVal mask k (.opaque i) (.str mask)
+  /-- any other string value goes through `mask_password` -/
+  | pass (k : PyKey) (s : List Char) : ¬ KeyHit k → MaskedVal mask k (.str s) (.str (maskPassword s mask))
+  /-- everything else is returned as it is (the same object) -/
+  | keep (k : PyKey) (i : Nat) : ¬ KeyHit k → MaskedVal mask k (.opaque i) (.opaque i)
+/-- same keys in the same order, values related pointwise -/
+inductive MaskedItems (mask : List Char) : List (PyKey × PyVal) → List (PyKey × PyVal) → Prop
+  | nil : MaskedItems mask [] []
+  | cons (k : PyKey) (v v' : PyVal) (rest rest' : List (PyKey × PyVal)) :
+      MaskedVal mask k v v' → MaskedItems mask rest rest' → MaskedItems mask ((k, v) :: rest) ((k, v') :: rest')
+end
+
+/-- the result of `mask_dict_password` on a mapping -/
+def Masked (mask : List Char) (v r : PyVal) : Prop :=
+  ∃ items items', v = .map items ∧ r = .map items' ∧ MaskedItems mask items items'
+
+mutual
+/-- representation invariant: at every level the keys of a mapping are pairwise distinct -/
+inductive WFVal : PyVal → Prop
+  | str (s : List Char) : WFVal (.str s)
+  | opaque (i : Nat) : WFVal (.opaque i)
+  | map (items : List (PyKey × PyVal)) : WFItems items → (items.map Prod.fst).Nodup → WFVal (.map items)
+inductive WFItems : List (PyKey × PyVal) → Prop
+  | nil : WFItems []
+  | cons (k : PyKey) (v : PyVal) (rest : List (PyKey × PyVal)) : WFVal v → WFItems rest → WFItems ((k, v) :: rest)
+end
+
+/-! ### helper lemmas -/
+
+theorem lemma_dictSet_fresh (k : PyKey) (v : PyVal) : ∀ (out : List (PyKey × PyVal)),
+    k ∉ out.map Prod.fst → dictSet out k v = out ++ [(k, v)] := by
+  intro out
+  induction out with
+  | nil => intro _; rfl
+  | cons kv out ih =>
+    intro h
+    obtain ⟨k', v'⟩ := kv
+    simp only [List.map_cons, List.mem_cons, not_or] at h
+    have hne : ¬ (k' = k) := fun e => h.1 e.symm
+    simp [dictSet, hne, ih h.2]
+
+/-- with distinct keys the loop appends one entry per item, in order -/
+theorem lemma_maskItems_nodup (mask : List Char) : ∀ (items out : List (PyKey × PyVal)),
+    (items.map Prod.fst).Nodup → (∀ k ∈ items.map Prod.fst, k ∉ out.map Prod.fst) →
+    maskItems mask items out = out ++ items.map (fun kv => (kv.1, maskValue mask kv.1 kv.2)) := by
+  intro items
+  induction items with
+  | nil => intro out _ _; simp [maskItems]
+  | cons kv items ih =>
+    intro out hnd hdis
+    obtain ⟨k, v⟩ := kv
+    simp only [List.map_cons, List.nodup_cons] at hnd
+    rw [maskItems, lemma_dictSet_fresh k _ out (hdis k (by simp))]
+    rw [ih _ hnd.2]
+    · simp
+    · intro k' hk' hmem
+      simp only [List.map_append, List.map_cons, List.map_nil, List.mem_append, List.mem_cons,
+        List.not_mem_nil, or_false] at hmem
+      rcases hmem with hmem | hmem
+      · exact hdis k' (by simp [hk']) hmem
+      · subst hmem; exact hnd.1 hk'
+
+theorem lemma_keyHit_str (ks : List Char) : KeyHit (.str ks) ↔ keyMatches Gen.sanitizeKeys ks = true := by
+  constructor
+  · rintro ⟨ks', h, hm⟩; cases h; exact hm
+  · intro h; exact ⟨ks, rfl, h⟩
+
+theorem lemma_keyHit_other (i : Nat) : ¬ KeyHit (.other i) := by
+  rintro ⟨ks, h, _⟩; cases h
+
+mutual
+theorem lemma_maskValue_spec (mask : List Char) (k : PyKey) :
+    (v : PyVal) → WFVal v → MaskedVal mask k v (maskValue mask k v)
+  | .map items, h => by
+    cases h with
+    | map _ hi hn =>
+      rw [maskValue, lemma_maskItems_nodup mask items [] hn (by simp)]
+      exact .map k items _ (by simpa using lemma_maskItems_spec mask items hi)
+  | .str s, _ => by
+    cases k with
+    | str ks =>
+      by_cases hm : keyMatches Gen.sanitizeKeys ks = true
+      · simp only [maskValue, hm, if_true]; exact .hitStr _ _ ((lemma_keyHit_str ks).2 hm)
+      · simp only [maskValue, hm]; exact .pass _ _ (fun h => hm ((lemma_keyHit_str ks).1 h))
+    | other i => simp only [maskValue]; exact .pass _ _ (lemma_keyHit_other i)
+  | .opaque i, _ => by
+    cases k with
+    | str ks =>
+      by_cases hm : keyMatches Gen.sanitizeKeys ks = true
+      · simp only [maskValue, hm, if_true]; exact .hitOther _ _ ((lemma_keyHit_str ks).2 hm)
+      · simp only [maskValue, hm]; exact .keep _ _ (fun h => hm ((lemma_keyHit_str ks).1 h))
+    | other j => simp only [maskValue]; exact .keep _ _ (lemma_keyHit_other j)
+theorem lemma_maskItems_spec (mask : List Char) :
+    (items : List (PyKey × PyVal)) → WFItems items →
+      MaskedItems mask items (items.map (fun kv => (kv.1, maskValue mask kv.1 kv.2)))
+  | [], _ => .nil
+  | (k, v) :: rest, h => by
+    cases h with
+    | cons _ _ _ hv hr =>
+      exact .cons k v _ rest _ (lemma_maskValue_spec mask k v hv) (lemma_maskItems_spec mask rest hr)
+end
+
+/-! ### the property -/
+
+/-- for every mapping (any depth, any width) the result satisfies the specification `Masked`:
+    same keys in the same order at every level, mapping values recursed, a non-mapping value under a string
+    key containing a sanitize key (case-insensitively) replaced by the mask, other strings passed through
+    `mask_password`, everything else the same object -/
+theorem maskdict_spec (items : List (PyKey × PyVal)) (mask : List Char) (h : WFVal (.map items)) :
+    ∃ r, maskDict (.map items) mask = .ok r ∧ Masked mask (.map items) r := by
+  cases h with
+  | map _ hi hn =>
+    refine ⟨.map (maskItems mask items []), rfl, items, _, rfl, rfl, ?_⟩
+    rw [lemma_maskItems_nodup mask items [] hn (by simp)]
+    simpa using lemma_maskItems_spec mask items hi
+
+theorem lemma_masked_keys (mask : List Char) : ∀ (items items' : List (PyKey × PyVal)),
+    MaskedItems mask items items' → items'.map Prod.fst = items.map Prod.fst := by
+  intro items items' h
+  induction items generalizing items' with
+  | nil => cases h; rfl
+  | cons kv items ih =>
+    cases h with
+    | cons k v v' rest rest' _ hr => simp [ih rest' hr]
+
+/-- the result has exactly the argument's keys, in the argument's order -/
+theorem maskdict_keys_preserved (items : List (PyKey × PyVal)) (mask : List Char) (h : WFVal (.map items)) :
+    ∃ items', maskDict (.map items) mask = .ok (.map items') ∧ items'.map Prod.fst = items.map Prod.fst := by
+  obtain ⟨r, hr, its, its', h1, h2, hm⟩ := maskdict_spec items mask h
+  cases h1
+  subst h2
+  exact ⟨its', hr, lemma_masked_keys mask _ _ hm⟩
+
+/-- a non-mapping argument raises TypeError, and only a non-mapping argument does -/
 theorem maskdict_non_mapping_typeerror (v : PyVal) (mask : List Char) :
     (∀ items, v ≠ .map items) ↔ maskDict v mask = .error .typeError := by
   cases v <;> simp [maskDict]
+
+/-- non-vacuity: a three-level mapping with str and non-str keys meets the invariant -/
+example : WFVal (.map [(.str "Password".toList, .str "x".toList),
+                       (.other 3, .map [(.str "n".toList, .opaque 0),
+                                        (.str "auth_token".toList, .map [(.other 1, .str "token=abc".toList)])]),
+                       (.str "user".toList, .str "password=abc".toList)]) := by
+  repeat (first | constructor | decide)
+
+example : keyMatches Gen.sanitizeKeys "X-Auth_Token-2".toList = true ∧
+          keyMatches Gen.sanitizeKeys "ſecret".toList = false := by decide
 
 end Oslo.MaskDict
